@@ -51,6 +51,95 @@ def _ret_key(u, f):
     return k.replace('%s#%s' % (p['name'], p['id']), 'Y')
 
 
+def _type_designator(u, raw, e):
+    """What transition type an expression of type TransitionType denotes: ('var', decl id, 'ptr'|'idx') for *P /
+    transition_types_[I] with P / I a local, ('own', key of the entry) for transition_types_[<entry>.type_index],
+    ('default',) for transition_types_[default_transition_type_], None otherwise."""
+    x = peel(e, explicit=False)
+    while x is not None and x.get('kind') in ('MaterializeTemporaryExpr', 'CXXBindTemporaryExpr') and kids(x):
+        x = peel(kids(x)[0], explicit=False)
+    if x is None:
+        return None
+    if x.get('kind') == 'UnaryOperator' and x.get('opcode') == '*':
+        p_ = peel(kids(x)[0])
+        if p_.get('kind') == 'DeclRefExpr':
+            return ('var', (p_.get('referencedDecl') or {}).get('id'), 'ptr')
+        return None
+    idx = None
+    if x.get('kind') == 'CXXOperatorCallExpr' and callee(x) and callee(x)[0] == 'fn' and callee(x)[1].get('name') == 'operator[]':
+        a_ = call_args(x)
+        if raw.key(a_[0]).endswith('transition_types_'):
+            idx = a_[1]
+    elif x.get('kind') == 'ArraySubscriptExpr' and raw.key(kids(x)[0]).endswith('transition_types_'):
+        idx = kids(x)[1]
+    if idx is None:
+        return None
+    ik = raw.key(idx)
+    pi = peel(idx)
+    if pi.get('kind') == 'DeclRefExpr' and (pi.get('referencedDecl') or {}).get('kind') == 'VarDecl':
+        return ('var', (pi.get('referencedDecl') or {}).get('id'), 'idx')
+    if ik.endswith('.type_index'):
+        return ('own', ik[:-len('.type_index')])
+    if ik.endswith('default_transition_type_'):
+        return ('default',)
+    return None
+
+
+def _civil_types(u, f, g, dom, raw, prev, cur):
+    if len(prev) != 1 or len(cur) != 1:
+        return None, 'found %d / %d assignments of prev_civil_sec / civil_sec in Load' % (len(prev), len(cur))
+    pk, ck = raw.key(call_args(prev[0])[0]), raw.key(call_args(cur[0])[0])
+    entry = pk[:-len('.prev_civil_sec')]
+    if ck != entry + '.civil_sec':
+        return None, 'the two assignments are not to one entry (%s, %s)' % (pk, ck)
+    if not raw.key(call_args(prev[0])[1]).endswith(' - n:1)'):
+        return False, 'prev_civil_sec is not one second before the civil time under the earlier type'
+
+    def lt_type(x):
+        calls = [y for y in walk(call_args(x)[1]) if y.get('kind') == 'CXXMemberCallExpr' and callee(y) and callee(y)[1] == 'LocalTime']
+        if len(calls) != 1 or len(call_args(calls[0])) != 2:
+            return None, None
+        return _type_designator(u, raw, call_args(calls[0])[1]), raw.key(call_args(calls[0])[0])
+    tp, up_ = lt_type(prev[0])
+    tc, uc_ = lt_type(cur[0])
+    if tp is None or tc is None:
+        return None, 'the type handed to LocalTime is not of a recognised form'
+    if up_ != entry + '.unix_time' or uc_ != entry + '.unix_time':
+        return False, 'LocalTime is not applied to the instant of the entry being filled in (%s, %s)' % (up_, uc_)
+    if tp[0] != 'var':
+        return False, 'prev_civil_sec is computed with %s, not with the type carried over from the entry before' % (tp,)
+    vid, kind = tp[1], tp[2]
+    d = u.by_id.get(vid)
+    if d is None or d.get('kind') != 'VarDecl' or not kids(d):
+        return None, 'the carried type is not a local with an initialiser'
+    ik = raw.key(kids(d)[-1])
+    want0 = '&(this.transition_types_[this.default_transition_type_])' if kind == 'ptr' else 'this.default_transition_type_'
+    if re.sub(r'^cast<[^>]*>\((.*)\)$', r'\1', ik) != want0 and ik != want0:
+        return False, 'the type in force before the first entry is %s, not the default type' % ik
+    ws = [y for y in walk(f) if y.get('kind') == 'BinaryOperator' and y.get('opcode') == '=' and
+          (peel(kids(y)[0]).get('referencedDecl') or {}).get('id') == vid]
+    if len(ws) != 1:
+        return None, 'the carried type is assigned %d times' % len(ws)
+    wk = raw.key(kids(ws[0])[1])
+    want1 = '&(this.transition_types_[%s.type_index])' % entry if kind == 'ptr' else '%s.type_index' % entry
+    if re.sub(r'^cast<[^>]*>\((.*)\)$', r'\1', wk) != want1 and wk != want1:
+        return False, 'the carried type is updated to %s, not to the type of the entry just filled in' % wk
+    pn, wn, cn = g.nodes_for(prev[0]), g.nodes_for(ws[0]), g.nodes_for(cur[0])
+    if not (pn and wn and cn):
+        return None, 'assignments not located in the flow graph'
+    if not any(a.id in dom[b.id] for a in pn for b in wn):
+        return False, 'the carried type is updated before prev_civil_sec has been computed with it'
+    if tc[0] == 'own':
+        if tc[1] != entry:
+            return False, 'civil_sec is computed with the type of %s' % tc[1]
+    elif tc[0] == 'var' and tc[1] == vid:
+        if not any(a.id in dom[b.id] for a in wn for b in cn):
+            return False, 'civil_sec is computed with the carried type before it has been updated to the entry\'s own type'
+    else:
+        return False, 'civil_sec is computed with %s, not with the entry\'s own type' % (tc,)
+    return True, ''
+
+
 def run(ctx):
     G = ctx.G
     # ---- C01-cal
@@ -298,21 +387,10 @@ def run(ctx):
             raw.key(call_args(x)[0]).endswith('.prev_civil_sec')]
     cur = [x for x in walk(f) if x.get('kind') == 'CXXOperatorCallExpr' and callee(x) and callee(x)[1].get('name') == 'operator=' and
            raw.key(call_args(x)[0]).endswith('.civil_sec') and not raw.key(call_args(x)[0]).endswith('prev_civil_sec')]
-    upd = [x for x in walk(f) if x.get('kind') == 'BinaryOperator' and x.get('opcode') == '=' and
-           re.search(r'transition_types_\[.*type_index\]\)$', raw.key(kids(x)[1]))]
-    ok = len(prev) == 1 and len(cur) == 1 and len(upd) == 1
-    if ok:
-        tvar = raw.key(kids(upd[0])[0])
-        ok = ('*(%s)' % tvar) in raw.key(call_args(prev[0])[1]) and ('*(%s)' % tvar) in raw.key(call_args(cur[0])[1]) and \
-            raw.key(call_args(prev[0])[1]).endswith(' - n:1)')
-        pn, un, cn = g.nodes_for(prev[0]), g.nodes_for(upd[0]), g.nodes_for(cur[0])
-        ok = ok and pn and un and cn and any(a.id in dom[b.id] for a in pn for b in un) and any(a.id in dom[b.id] for a in un for b in cn)
-        # initial type = default type
-        init = [x for x in walk(f) if x.get('kind') == 'VarDecl' and '%s#%s' % (x.get('name'), x.get('id')) == tvar]
-        ok = ok and len(init) == 1 and raw.key(kids(init[0])[-1]) == '&(this.transition_types_[this.default_transition_type_])'
-    ctx.check(ok, 'C01-rule', 'each transition: previous civil second under the type in force before it, civil second under its own type', f,
-              'Load computes prev_civil_sec/civil_sec with the wrong transition type (or not starting from the default type)',
-              construct='rule:civil')
+    verdict, why = _civil_types(u, f, g, dom, raw, prev, cur)
+    ctx.check3(verdict, 'C01-rule', 'each transition: previous civil second under the type in force before it, civil second under its own type', f,
+               'Load computes prev_civil_sec/civil_sec with the wrong transition type (or not starting from the default type): %s' % why,
+               construct='rule:civil', unknown_why=why)
     ctx.minimum('C01-rule', 4)
 
     # ---- C01-days: the day-of-year a footer date denotes, by abstract interpretation of TransOffset
